@@ -413,6 +413,30 @@ func init() {
 	})
 }
 
+func init() {
+	register(&Property{
+		ID:          "C14",
+		Patterns:    append([]string{"github.com/ory/keto/internal/driver", "github.com/ory/keto/internal/expand"}, enginePatterns...),
+		HarnessDirs: []string{"internal/check/zzverif", "internal/driver"},
+		ReplayTags:  "sqlite",
+		NoReplay:    map[string]string{"HarnessC14RegistryInit": "data races are decided by the executor's happens-before analysis; the native race detector is not part of this family", "HarnessC14Isolation": "schedule-dependent: the native scheduler cannot be forced"},
+		Assumptions: append([]string{"happens-before = the executor's vector clocks over its models of go, channels, select, mutexes, Once, WaitGroup, atomics and context; a race = two conflicting accesses to the same interpreted memory cell by different goroutines that are unordered on an explored path", "configurations without && and ! (their answers are schedule-dependent on their own, see F7)"}, engineAssumptions...),
+		Outside:     append([]string{"reports of the Go race detector on the real runtime", "schedules beyond delay bound 1", "more than two concurrent requests"}, engineOutside...),
+		Runs: func(tier string) []Run {
+			a := engineRun("isolation", "HarnessC14Isolation", map[string]int64{"family": 0, "K": 1, "objs": 2, "shapes": pick(tier, 1, 0), "modes": pick(tier, 1, 0)})
+			a.StopAfter = 200
+			a.Delay = 1
+			a.Race = true
+			a.Reach = []string{"c14.concurrent"}
+			b := Run{Name: "registry-lazy-init", Pkg: "github.com/ory/keto/internal/driver", Harness: "HarnessC14RegistryInit", Params: map[string]int64{}, Delay: 1, Race: true, Reach: []string{"c14.registry"}}
+			return []Run{a, b}
+		},
+		Bounds: func(tier string) map[string]interface{} {
+			return map[string]interface{}{"requests": 2, "rows": 1, "delay bound": 1, "configurations": []string{"schemaless, default mode", "plain / schemaless / subject-set typed, both modes"}[pick(tier, 0, 1)]}
+		},
+	})
+}
+
 func itoa(n int64) string {
 	s := ""
 	if n == 0 {
